@@ -27,11 +27,11 @@ func init() {
 		Body: func(x *vs.Exec, p explore.Params) {
 			mix := p["mix"]
 			d := newDone(x)
-			x.Data["d"] = d
+			x.Put("d", d)
 			var mu sync.Mutex
 			ids := map[string][]uint32{}
 			note := func(k string, v uint32) { mu.Lock(); ids[k] = append(ids[k], v); mu.Unlock() }
-			x.Data["ids"] = ids
+			x.Put("ids", ids)
 			safe := func(name string, f func()) func() {
 				return func() {
 					defer func() {
@@ -72,7 +72,7 @@ func init() {
 				kind, proto, _ := strings.Cut(mix, ":")
 				x.Hold()
 				lc := newLive(x, liveOpts{proto: proto})
-				x.Data["lc"] = lc
+				x.Put("lc", lc)
 				n := 0
 				if lc.rp != nil {
 					lc.rp.mk = func() *tagRPCServer { n++; return &tagRPCServer{tag: fmt.Sprintf("obj%d", n)} }
@@ -91,7 +91,7 @@ func init() {
 				}
 				x.Release()
 				tags := map[string]int{}
-				x.Data["tags"] = tags
+				x.Put("tags", tags)
 				dispense := func(name string) func() {
 					return safe(name, func() {
 						o, err := cp.Dispense("p")
@@ -159,6 +159,16 @@ func init() {
 					}
 					tok(sb, cb, lc.r.dom.Name, "host", 41)
 					tok(cb, sb, "host", lc.r.dom.Name, 42)
+					d.goIn("host", "dispense0", dispense("dispense0"))
+					d.goIn("host", "dispense1", dispense("dispense1"))
+				case "dispense-fail":
+					// C06: a Dispense whose Plugin.Server() fails, overlapping two that succeed: the failing one must
+					// not disturb the ids of the others (each dispensed client reaches its own server object)
+					d.goIn("host", "dispense-bad", safe("dispense-bad", func() {
+						if _, err := cp.Dispense("bad"); err == nil {
+							x.Fail("S", "Dispense of a plugin whose Server() fails succeeded [mix=%s]", mix)
+						}
+					}))
 					d.goIn("host", "dispense0", dispense("dispense0"))
 					d.goIn("host", "dispense1", dispense("dispense1"))
 				case "dispense-kill":
@@ -264,7 +274,7 @@ func init() {
 		},
 		Instances: func(tier string) []explore.Params {
 			if tier == "c06" { // C06: every net/rpc Dispense reaches the server object created for it
-				return []explore.Params{{"mix": "dispense3:netrpc"}, {"mix": "nextid-mux"}, {"mix": "route-dispense:netrpc"}}
+				return []explore.Params{{"mix": "dispense3:netrpc"}, {"mix": "nextid-mux"}, {"mix": "route-dispense:netrpc"}, {"mix": "dispense-fail:netrpc"}}
 			}
 			out := []explore.Params{{"mix": "nextid-mux"}, {"mix": "nextid-grpc"}}
 			for _, proto := range []string{"netrpc", "grpc", "grpcmux"} {
